@@ -341,6 +341,11 @@ class XPathFunction(XPathToken):
         placeholders. The fixed arguments are evaluated where the item is created and
         the new item has its own placeholders.
         """
+        if self.label in ('partial function', 'inline partial function') and tokens is not self._items:
+            # the arguments fill the placeholders of the partial function
+            args = iter(tokens)
+            tokens = [next(args) if tk.symbol == '?' and not tk else tk for tk in self]
+
         func = copy(self)
         func._items = [
             copy(tk) if tk.symbol == '?' and not tk
